@@ -185,7 +185,7 @@ fn enum_rows(out: &mut Out, rng: &mut Rng, thorough: bool) {
                 cands.push(c);
             }
         }
-        for _ in 0..(if thorough { 3000 } else { 150 }) {
+        for _ in 0..(if thorough { 20000 } else { 150 }) {
             let n = 1 + rng.below(12) as usize;
             cands.push((0..n).map(|_| *rng.pick(b"ABCXYZTabcxyzt0123_")).collect());
         }
